@@ -34,6 +34,7 @@ type Prog struct {
 	ea        *ErrAtoms
 	ls        *Lockset
 	apiReachMemo map[*ssa.Function]map[string]bool
+	fileParamFx  map[*ssa.Function]map[int][2]bool
 	R         *Roles
 
 	Stats struct {
